@@ -15,10 +15,14 @@ func checkC08(c *Ctx, r *Report) {
 	r.Explanation = "Narrow clauses: (DEP) the payload size remembered by DecodeMdatLazily and the distance DecodeBoxLazyMdat seeks both depend on the box size AND the actual header length (8 or 16), " +
 		"the three mdat decoders derive LargeSize from the header length and StartPos from the start position; (S-SHAPE) DecodeBoxLazyMdat performs the same header decode, registry lookup, unknown-box fallback and decoder call as DecodeBox, " +
 		"differing only in the mdat arm, where it seeks only after a successful lazy decode; (G7) ReadData/CopyData reject a range end only when it is strictly greater than the data length (a range ending at the last byte is valid); " +
-		"(O-FLUSH) in File.CopySampleData a direct copy from the file to the writer is control-dependent on a test that the work buffer is absent, so buffered bytes of earlier chunks cannot be overtaken, and the buffer remainder is written after the loop; " +
-		"(DEP) File.AddChild's test that the previous mdat is empty depends on the lazily decoded size; (O-INDEP) in loops over chunks the first-chunk and last-chunk adjustments are independent, not exclusive arms (lazy copyMediaData and GetRangesForSampleInterval); (W-MDATHDR) no function computes the payload start as StartPos plus a constant. W-EE (layout engine, C03) covers that a lazy mdat encodes to exactly its header. Does not decide seek arithmetic values or refill correctness for all sizes."
+		"(G7, generalised) in package mp4 every test that rejects a parameter-derived exclusive range end against the mdat data length, or a sample number against the sample count, is strict; (O-FLUSH) in File.CopySampleData a direct copy from the file to the writer is control-dependent on a test that the work buffer is absent, so buffered bytes of earlier chunks cannot be overtaken, and the buffer remainder is written after the loop; " +
+		"(DEP) File.AddChild's test that the previous mdat is empty depends on the lazily decoded size; (O-FRESH) MdatBox.ReadData returns freshly allocated bytes or a part of Data, never a buffer kept in the box; (O-INDEP) in loops over chunks the first-chunk and last-chunk adjustments are independent, not exclusive arms (lazy copyMediaData and GetRangesForSampleInterval); (W-MDATHDR) no function computes the payload start as StartPos plus a constant. W-EE (layout engine, C03) covers that a lazy mdat encodes to exactly its header. Does not decide seek arithmetic values or refill correctness for all sizes."
 	ruleMdatEmptyTest(c, r)
-	ruleIndependentEnds(c, r, "O-INDEP", func(f *ssa.Function) bool { n := SSAFuncName(f); return strings.HasPrefix(n, "examples/segmenter.") || strings.HasPrefix(n, "mp4.") }, 2)
+	ruleFreshResult(c, r)
+	ruleIndependentEnds(c, r, "O-INDEP", func(f *ssa.Function) bool {
+		n := SSAFuncName(f)
+		return strings.HasPrefix(n, "examples/segmenter.") || strings.HasPrefix(n, "mp4.")
+	}, 2)
 	ruleNoMdatHeaderConstant(c, r, "W-MDATHDR")
 	requireFixture(r, "W-MDATHDR", "payloadStartWrong", func(fc *Ctx, s *Report) { ruleNoMdatHeaderConstant(fc, s, "W-MDATHDR") })
 	if f := c.ssaFunc(r, "DEP", "mp4", "DecodeMdatLazily"); f != nil {
@@ -170,6 +174,9 @@ func checkC08(c *Ctx, r *Report) {
 		if found == 0 {
 			r.Bad("G7", "mp4."+n+":range-end", c.Pos(f.Pos()), "the in-memory arm does not compare the end of the requested range with the data length at all")
 		}
+	}
+	if n := ruleStrictUpper(c, r, "G7", func(f *ssa.Function) bool { return strings.HasPrefix(SSAFuncName(f), "mp4.") }); n < 4 {
+		r.Undecided("G7", "scope", "", "upper-bound tests against the data length / sample count not found")
 	}
 	// O-FLUSH
 	if f := c.ssaFunc(r, "O-FLUSH", "mp4", "File.CopySampleData"); f != nil {
